@@ -1,49 +1,310 @@
-"""Native replay for C06: fixtures extracted under two hash seeds in fresh processes, observers
-called repeatedly interleaved with to_json(), input buffer compared before/after."""
-import glob
+"""Native replay for C06 (runs under /venv/bin/python against the real code).
+
+Corpus = the repository fixtures + a few SYNTHETIC documents that contain the constructs the fixtures lack (style names
+that collide under case / length / whitespace keys; image twins that differ only in their dimension bytes).  Every
+document is extracted in two fresh processes with different hash seeds, in OPPOSITE corpus order (history independence),
+with and without a path, twice in the same process; observers -- including reading the streams handed out by
+get_bytes() -- are interleaved with to_json(); the input buffer is compared before/after.
+
+Targeted searches (chosen by the obligation's `replay_hint`):
+  stream  function-level: the reader is called on one BytesIO at several cursor positions;
+  state   function-level: a memoised function is called on a pool of near-colliding inputs after different histories;
+  order   synthetic documents under three hash seeds;
+  nondet  the corpus (path and path=None) in two processes.
+"""
 import hashlib
+import importlib
 import io
 import json
 import os
+import struct
 import subprocess
 import sys
+import zipfile
+import zlib
+
+SYNTH_DIR = "/tmp/c06_synth_v3"
 
 WORKER = r'''
-import sys, io, json, glob, hashlib, logging
+import sys, io, json, glob, hashlib, logging, dataclasses, os
 logging.disable(logging.CRITICAL)
-repo = sys.argv[1]
+repo, synth_dir, order, scope = sys.argv[1], sys.argv[2], sys.argv[3], sys.argv[4]
 sys.path.insert(0, repo)
 import sharepoint2text
+
+def streams(obj, seen, out, depth=0):
+    if id(obj) in seen or depth > 8:
+        return
+    seen.add(id(obj))
+    if isinstance(obj, io.BytesIO):
+        out.append(obj)
+    elif dataclasses.is_dataclass(obj) and not isinstance(obj, type):
+        for f in dataclasses.fields(obj):
+            streams(getattr(obj, f.name, None), seen, out, depth + 1)
+    elif isinstance(obj, (list, tuple)):
+        for x in obj:
+            streams(x, seen, out, depth + 1)
+    elif isinstance(obj, dict):
+        for x in obj.values():
+            streams(x, seen, out, depth + 1)
+
+def js(r):
+    return json.dumps(r.to_json(), sort_keys=True, default=str)
+
+def observe(r):
+    r.get_full_text(); list(r.iterate_units()); imgs = list(r.iterate_images()); list(r.iterate_tables()); r.get_metadata()
+    for u in r.iterate_units():
+        u.get_text(); u.get_images(); u.get_tables(); u.get_metadata()
+    for im in imgs:                      # a consumer reads the picture it was handed
+        b = im.get_bytes()
+        if hasattr(b, "read"):
+            b.read()
+        for name in ("get_caption", "get_description", "get_content_type"):
+            if hasattr(im, name):
+                getattr(im, name)()
+    out = []
+    streams(r, set(), out)
+    for s in out:                        # ... or any other stream the result owns (attachments)
+        s.read()
+
+files = []
+if scope in ("all", "fixtures"):
+    files += [f for f in sorted(glob.glob(repo + "/sharepoint2text/tests/resources/*/*")) if "password" not in f]
+if scope in ("all", "synthetic"):
+    files += sorted(glob.glob(synth_dir + "/*"))
+files = [f for f in files if os.path.isfile(f) and sharepoint2text.is_supported_file(f)]
+if order == "rev":
+    files.reverse()
 out = {}
-for f in sorted(glob.glob(repo + "/sharepoint2text/tests/resources/*/*")):
-    if not sharepoint2text.is_supported_file(f) or "password" in f:
-        continue
+for f in files:
+    name = f[len(repo) + 1:] if f.startswith(repo + "/") else "synthetic/" + os.path.basename(f)
     try:
         data = open(f, "rb").read()
         ex = sharepoint2text.get_extractor(f)
         buf = io.BytesIO(data)
         res = list(ex(buf, f))
-        js = [json.dumps(r.to_json(), sort_keys=True, default=str) for r in res]
-        rec = {"digest": hashlib.sha256("".join(js).encode()).hexdigest(), "json": js, "buffer_unchanged": buf.getvalue() == data, "observer_stable": True}
+        j1 = [js(r) for r in res]
+        rec = {"digest": hashlib.sha256("".join(j1).encode()).hexdigest(), "json": j1, "buffer_unchanged": buf.getvalue() == data,
+               "observer_stable": True, "repeat_stable": True}
         for r in res:
-            before = json.dumps(r.to_json(), sort_keys=True, default=str)
-            r.get_full_text(); list(r.iterate_units()); list(r.iterate_images()); list(r.iterate_tables()); r.get_metadata()
-            for u in r.iterate_units():
-                u.get_text(); u.get_images(); u.get_tables(); u.get_metadata()
-            after = json.dumps(r.to_json(), sort_keys=True, default=str)
+            before = js(r)
+            observe(r)
+            after = js(r)
             if before != after:
                 rec["observer_stable"] = False
-        out[f[len(repo) + 1:]] = rec
+        # the same bytes again in this process, the caller's cursor somewhere else
+        b2 = io.BytesIO(data)
+        b2.seek(min(7, len(data)))
+        res2 = list(ex(b2, f))
+        if [js(r) for r in res2] != j1:
+            rec["repeat_stable"] = False
+        if b2.getvalue() != data:
+            rec["buffer_unchanged"] = False
+        # without a path (in-memory download)
+        try:
+            b3 = io.BytesIO(data)
+            res3 = list(ex(b3, None))
+            j3 = [js(r) for r in res3]
+            rec["nopath_json"] = j3
+            rec["nopath_digest"] = hashlib.sha256("".join(j3).encode()).hexdigest()
+            if [js(r) for r in ex(io.BytesIO(data), None)] != j3:
+                rec["repeat_stable"] = False
+        except Exception as e:
+            rec["nopath_error"] = type(e).__name__
+        out[name] = rec
     except Exception as e:
-        out[f[len(repo) + 1:]] = {"error": type(e).__name__}
+        out[name] = {"error": type(e).__name__}
 print(json.dumps(out))
 '''
 
 
-def run(seed, repo):
-    p = subprocess.run([sys.executable, "-c", WORKER, repo], capture_output=True, text=True, timeout=900,
-                       env=dict(os.environ, PYTHONHASHSEED=str(seed)))
-    lines = [l for l in p.stdout.splitlines() if l.startswith("{")]
+# ------------------------------------------------------------------ synthetic corpus --
+NAME_POOL = ["P1", "p1", "P2", "p2", "Heading", "HEADING", "heading", "Straße", "STRASSE", "strasse", "T1", "t1", "Table1", "TABLE1",
+             "ab", "ba", "Ab", "aB", " x", "x ", "x", "a b", "a  b", "List", "LIST", "list", "Standard", "STANDARD", "Text_20_body", "text_20_body"]
+
+
+def jpeg(width, height, pad=700):
+    """Header-only JPEG: SOI, JFIF APP0, a long COM segment, SOF0 with the dimensions, EOI."""
+    app0 = b"\xff\xe0" + struct.pack(">H", 16) + b"JFIF\x00\x01\x01\x00\x00\x01\x00\x01\x00\x00"
+    com = b"\xff\xfe" + struct.pack(">H", pad + 2) + b"c" * pad
+    sof = b"\xff\xc0" + struct.pack(">HBHHB", 17, 8, height, width, 3) + b"\x01\x11\x00\x02\x11\x01\x03\x11\x01"
+    return b"\xff\xd8" + app0 + com + sof + b"\xff\xd9"
+
+
+def png(width, height):
+    def chunk(t, d):
+        return struct.pack(">I", len(d)) + t + d + struct.pack(">I", zlib.crc32(t + d) & 0xFFFFFFFF)
+    raw = b"".join(b"\x00" + b"\x00" * width for _ in range(height))
+    return b"\x89PNG\r\n\x1a\n" + chunk(b"IHDR", struct.pack(">IIBBBBB", width, height, 8, 0, 0, 0, 0)) + chunk(b"IDAT", zlib.compress(raw)) + chunk(b"IEND", b"")
+
+
+def gif(width, height):
+    return b"GIF89a" + struct.pack("<HH", width, height) + b"\x00\x00\x00" + b";" * 80
+
+
+def bmp(width, height):
+    return b"BM" + b"\x00" * 12 + struct.pack("<I", 40) + struct.pack("<ii", width, height) + b"\x00" * 60
+
+
+def blob_pool():
+    """Near-colliding image blobs: same length, same long prefix (and suffix), different dimensions."""
+    pool = [jpeg(640, 480), jpeg(320, 200), jpeg(16, 16), jpeg(480, 640)]
+    pool += [gif(10, 20), gif(20, 10), bmp(7, 9), bmp(9, 7)]
+    a, b = png(3, 5), png(5, 3)
+    if len(a) == len(b):
+        pool += [a, b]
+    return pool
+
+
+def odt_with_styles(names):
+    ns = ('xmlns:office="urn:oasis:names:tc:opendocument:xmlns:office:1.0" xmlns:style="urn:oasis:names:tc:opendocument:xmlns:style:1.0" '
+          'xmlns:text="urn:oasis:names:tc:opendocument:xmlns:text:1.0" xmlns:table="urn:oasis:names:tc:opendocument:xmlns:table:1.0" '
+          'xmlns:draw="urn:oasis:names:tc:opendocument:xmlns:drawing:1.0" xmlns:fo="urn:oasis:names:tc:opendocument:xmlns:xsl-fo-compatible:1.0" '
+          'xmlns:xlink="http://www.w3.org/1999/xlink" xmlns:dc="http://purl.org/dc/elements/1.1/" '
+          'xmlns:meta="urn:oasis:names:tc:opendocument:xmlns:meta:1.0" xmlns:svg="urn:oasis:names:tc:opendocument:xmlns:svg-compatible:1.0"')
+    esc = lambda s: s.replace("&", "&amp;").replace('"', "&quot;").replace("<", "&lt;")
+    half = len(names) // 2
+    auto = "".join(f'<style:style style:name="{esc(n)}" style:family="paragraph"/>' for n in names[:half + 3])
+    common = "".join(f'<style:style style:name="{esc(n)}" style:family="paragraph"/>' for n in names[half:])
+    body = "".join(f'<text:p text:style-name="{esc(n)}">paragraph {i}</text:p>' for i, n in enumerate(names[:6]))
+    content = (f'<?xml version="1.0" encoding="UTF-8"?><office:document-content {ns} office:version="1.2"><office:automatic-styles>{auto}'
+               f'</office:automatic-styles><office:body><office:text>{body}</office:text></office:body></office:document-content>')
+    styles = (f'<?xml version="1.0" encoding="UTF-8"?><office:document-styles {ns} office:version="1.2"><office:styles>{common}</office:styles>'
+              f'</office:document-styles>')
+    meta = (f'<?xml version="1.0" encoding="UTF-8"?><office:document-meta {ns} office:version="1.2"><office:meta><dc:title>synthetic</dc:title>'
+            f'</office:meta></office:document-meta>')
+    manifest = ('<?xml version="1.0" encoding="UTF-8"?><manifest:manifest xmlns:manifest="urn:oasis:names:tc:opendocument:xmlns:manifest:1.0">'
+                '<manifest:file-entry manifest:full-path="/" manifest:media-type="application/vnd.oasis.opendocument.text"/>'
+                '<manifest:file-entry manifest:full-path="content.xml" manifest:media-type="text/xml"/>'
+                '<manifest:file-entry manifest:full-path="styles.xml" manifest:media-type="text/xml"/>'
+                '<manifest:file-entry manifest:full-path="meta.xml" manifest:media-type="text/xml"/></manifest:manifest>')
+    return _zip([("mimetype", b"application/vnd.oasis.opendocument.text", zipfile.ZIP_STORED), ("content.xml", content.encode()),
+                 ("styles.xml", styles.encode()), ("meta.xml", meta.encode()), ("META-INF/manifest.xml", manifest.encode())])
+
+
+def docx_with_styles(names):
+    w = 'xmlns:w="http://schemas.openxmlformats.org/wordprocessingml/2006/main" xmlns:r="http://schemas.openxmlformats.org/officeDocument/2006/relationships"'
+    esc = lambda s: s.replace("&", "&amp;").replace('"', "&quot;").replace("<", "&lt;")
+    ids = [f"S{i}" for i in range(len(names))]
+    paras = "".join(f'<w:p><w:pPr><w:pStyle w:val="{i}"/></w:pPr><w:r><w:t>paragraph {k}</w:t></w:r></w:p>' for k, i in enumerate(ids))
+    paras += "".join(f'<w:p><w:pPr><w:pStyle w:val="{esc(n)}"/></w:pPr><w:r><w:t>direct {k}</w:t></w:r></w:p>' for k, n in enumerate(names))
+    # hyperlinks, several of them repeated (same text / same target)
+    links = [("alpha", "https://example.org/a"), ("beta", "https://example.org/b"), ("gamma", "https://example.org/c"), ("alpha", "https://example.org/a"),
+             ("delta", "https://example.org/d"), ("beta", "https://example.org/b"), ("epsilon", "https://example.org/a"), ("alpha", "https://example.org/z")]
+    paras += "".join(f'<w:p><w:r><w:t xml:space="preserve">See </w:t></w:r><w:hyperlink r:id="rL{k}"><w:r><w:t>{t}</w:t></w:r></w:hyperlink></w:p>'
+                     for k, (t, _u) in enumerate(links))
+    doc = f'<?xml version="1.0" encoding="UTF-8" standalone="yes"?><w:document {w}><w:body>{paras}<w:sectPr/></w:body></w:document>'
+    styles = (f'<?xml version="1.0" encoding="UTF-8" standalone="yes"?><w:styles {w}>' +
+              "".join(f'<w:style w:type="paragraph" w:styleId="{i}"><w:name w:val="{esc(n)}"/></w:style>' for i, n in zip(ids, names)) + "</w:styles>")
+    ct = ('<?xml version="1.0" encoding="UTF-8" standalone="yes"?><Types xmlns="http://schemas.openxmlformats.org/package/2006/content-types">'
+          '<Default Extension="rels" ContentType="application/vnd.openxmlformats-package.relationships+xml"/><Default Extension="xml" ContentType="application/xml"/>'
+          '<Override PartName="/word/document.xml" ContentType="application/vnd.openxmlformats-officedocument.wordprocessingml.document.main+xml"/>'
+          '<Override PartName="/word/styles.xml" ContentType="application/vnd.openxmlformats-officedocument.wordprocessingml.styles+xml"/></Types>')
+    rels = ('<?xml version="1.0" encoding="UTF-8" standalone="yes"?><Relationships xmlns="http://schemas.openxmlformats.org/package/2006/relationships">'
+            '<Relationship Id="rId1" Type="http://schemas.openxmlformats.org/officeDocument/2006/relationships/officeDocument" Target="word/document.xml"/></Relationships>')
+    drels = ('<?xml version="1.0" encoding="UTF-8" standalone="yes"?><Relationships xmlns="http://schemas.openxmlformats.org/package/2006/relationships">'
+             '<Relationship Id="rId1" Type="http://schemas.openxmlformats.org/officeDocument/2006/relationships/styles" Target="styles.xml"/>' +
+             "".join(f'<Relationship Id="rL{k}" Type="http://schemas.openxmlformats.org/officeDocument/2006/relationships/hyperlink" Target="{u}" TargetMode="External"/>'
+                     for k, (_t, u) in enumerate(links)) + '</Relationships>')
+    return _zip([("[Content_Types].xml", ct.encode()), ("_rels/.rels", rels.encode()), ("word/document.xml", doc.encode()),
+                 ("word/styles.xml", styles.encode()), ("word/_rels/document.xml.rels", drels.encode())])
+
+
+def _zip(members):
+    bio = io.BytesIO()
+    with zipfile.ZipFile(bio, "w", zipfile.ZIP_DEFLATED) as z:
+        for m in members:
+            zi = zipfile.ZipInfo(m[0], date_time=(2020, 1, 1, 0, 0, 0))
+            zi.compress_type = m[2] if len(m) > 2 else zipfile.ZIP_DEFLATED
+            z.writestr(zi, m[1])
+    return bio.getvalue()
+
+
+def with_media(fixture_bytes, is_media, blob):
+    """Copy of a zip container in which every picture part is replaced by `blob`."""
+    src = zipfile.ZipFile(io.BytesIO(fixture_bytes))
+    members = []
+    n = 0
+    for zi in src.infolist():
+        d = src.read(zi.filename)
+        if is_media(zi.filename):
+            d = blob
+            n += 1
+        members.append((zi.filename, d, zi.compress_type))
+    return _zip(members) if n else None
+
+
+MBOX = (b"From alice@example.com Mon Jan 06 10:00:00 2025\nFrom: alice@example.com\nTo: team@example.com\nSubject: kickoff\n"
+        b"Date: Mon, 06 Jan 2025 10:00:00 +0000\nMessage-ID: <kickoff-001@example.com>\n\nfirst\n\n"
+        b"From bob@example.com Mon Jan 06 11:00:00 2025\nFrom: bob@example.com\nTo: team@example.com\nSubject: draft without id and date\n\nsecond\n\n"
+        b"From carol@example.com Mon Jan 06 12:00:00 2025\nFrom: carol@example.com\nSubject: no recipients\nDate: Mon, 06 Jan 2025 12:00:00 +0000\n\nthird\n")
+EML = b"From: dave@example.com\nSubject: bare message without Message-ID, Date, To\nMIME-Version: 1.0\nContent-Type: text/plain\n\nbody\n"
+
+
+def synth_corpus(repo):
+    """{file name: bytes}; deterministic."""
+    out = {"c06_style_names.odt": odt_with_styles(NAME_POOL), "c06_style_names.docx": docx_with_styles(NAME_POOL),
+           "c06_missing_headers.mbox": MBOX, "c06_missing_headers.eml": EML}
+    res = os.path.join(repo, "sharepoint2text/tests/resources")
+    # optional fields absent / trailing padding: the places where defaults (now(), generated ids) and "repairs" of the input creep in
+    try:
+        pdfs = sorted((os.path.getsize(p), p) for p in (os.path.join(res, "pdf", f) for f in os.listdir(os.path.join(res, "pdf"))) if p.endswith(".pdf"))
+        raw = open(pdfs[0][1], "rb").read()
+        out["c06_trailing_padding.pdf"] = raw + b"\n" + b"\x00" * ((-(len(raw) + 1)) % 512 or 512)
+        out["c06_trailing_blanks.pdf"] = raw + b"\r\n   \n\n"
+    except OSError:
+        pass
+    twins = [("jpeg", jpeg(640, 480), jpeg(320, 200)), ("png", png(3, 5), png(5, 3))]
+    for fixture, pred, tag in (("modern_ms/pptx_formula_image.pptx", lambda n: n.startswith("ppt/media/"), "pptx"),
+                               ("modern_ms/sample_with_comment_and_table.docx", lambda n: n.startswith("word/media/"), "docx")):
+        try:
+            raw = open(os.path.join(res, fixture), "rb").read()
+        except OSError:
+            continue
+        ext = fixture.rsplit(".", 1)[1]
+        for kind, a, b in twins:
+            for lab, blob in (("a", a), ("b", b)):
+                d = with_media(raw, pred, blob)
+                if d is not None:
+                    out[f"c06_twin_{kind}_{lab}.{ext}"] = d
+    return out
+
+
+def write_synth(repo):
+    os.makedirs(SYNTH_DIR, exist_ok=True)
+    d = os.path.join(SYNTH_DIR, hashlib.sha256(os.path.abspath(repo).encode()).hexdigest()[:10])
+    os.makedirs(d, exist_ok=True)
+    want = synth_corpus(repo)
+    for name, data in want.items():
+        p = os.path.join(d, name)
+        try:
+            if open(p, "rb").read() == data:
+                continue
+        except OSError:
+            pass
+        tmp = p + f".{os.getpid()}.tmp"
+        with open(tmp, "wb") as fh:
+            fh.write(data)
+        os.replace(tmp, p)
+    for f in os.listdir(d):
+        if f not in want and not f.endswith(".tmp"):
+            os.unlink(os.path.join(d, f))
+    return d
+
+
+# --------------------------------------------------------------------------- corpus run --
+def start(seed, repo, synth_dir, order, scope):
+    return subprocess.Popen([sys.executable, "-c", WORKER, repo, synth_dir, order, scope], stdout=subprocess.PIPE, stderr=subprocess.PIPE, text=True,
+                            env=dict(os.environ, PYTHONHASHSEED=str(seed)))
+
+
+def collect(p):
+    try:
+        so, se = p.communicate(timeout=900)
+    except subprocess.TimeoutExpired:
+        p.kill()
+        return {}
+    lines = [l for l in so.splitlines() if l.startswith("{")]
     return json.loads(lines[-1]) if lines else {}
 
 
@@ -66,31 +327,170 @@ def _diff(x, y, path, out):
         out.append(path)
 
 
-def mismatches(repo):
-    """[(file, kind, detail)] over all fixtures: two fresh processes with different hash seeds (and start times)."""
-    a, b = run(1, repo), run(2, repo)
-    out = []
-    if not a or not b:
+def mismatches(repo, scope="all", seeds=(1, 2)):
+    """[(file, kind, detail)] over the corpus: fresh processes with different hash seeds (and start times), opposite corpus
+    order; per process: repeated extraction, extraction without a path, observers interleaved with to_json()."""
+    synth = write_synth(repo)
+    procs = [start(s, repo, synth, "fwd" if i % 2 == 0 else "rev", scope) for i, s in enumerate(seeds)]
+    runs = [collect(p) for p in procs]
+    if not all(runs):
         return None
+    a = runs[0]
+    out = []
     for f in sorted(a):
-        ra, rb = a[f], b.get(f, {})
+        ra = a[f]
         if "error" in ra:
             continue
         if not ra.get("buffer_unchanged", True):
             out.append((f, "input buffer modified", ""))
-        if not ra.get("observer_stable", True):
-            out.append((f, "to_json() changed by observers", ""))
-        if ra.get("digest") != rb.get("digest"):
-            paths = []
-            for x, y in zip(ra.get("json", []), rb.get("json", [])):
-                _diff(json.loads(x), json.loads(y), "", paths)
-            out.append((f, "to_json() differs between fresh processes", ",".join(sorted(set(paths))[:6])))
+        if not all(r.get(f, {}).get("observer_stable", True) for r in runs):
+            out.append((f, "to_json() changed by observers (units / images / streams read)", ""))
+        if not all(r.get(f, {}).get("repeat_stable", True) for r in runs):
+            out.append((f, "to_json() differs between two extractions in one process (second one with the input cursor at offset 7)", ""))
+        for rb in runs[1:]:
+            rb = rb.get(f, {})
+            for dk, jk, what in (("digest", "json", "to_json() differs between fresh processes"),
+                                 ("nopath_digest", "nopath_json", "to_json() of an extraction without path differs between fresh processes")):
+                if ra.get(dk) != rb.get(dk) and dk in ra and dk in rb:
+                    paths = []
+                    for x, y in zip(ra.get(jk, []), rb.get(jk, [])):
+                        _diff(json.loads(x), json.loads(y), "", paths)
+                    rec = (f, what, ",".join(sorted(set(paths))[:6]))
+                    if rec not in out:
+                        out.append(rec)
     return out, len(a)
+
+
+# --------------------------------------------------------------------- targeted searches --
+def _import(repo, rel):
+    if repo not in sys.path:
+        sys.path.insert(0, repo)
+    return importlib.import_module(rel[:-3].replace("/", "."))
+
+
+def stream_search(repo, hint):
+    """The function named by the obligation reads a stream it was handed: call it with one payload at several cursor
+    positions; the result (and the payload) must not depend on the position, and the position must be restored."""
+    q = hint.get("function", "")
+    if "." in q:
+        return None
+    try:
+        fn = getattr(_import(repo, hint["file"]), q)
+    except Exception:
+        return None
+    payload = bytes(range(48, 48 + 40))
+    ref = None
+    for pos in (0, 1, 17, len(payload)):
+        b = io.BytesIO(payload)
+        b.seek(pos)
+        try:
+            r = fn(b)
+        except Exception as e:  # noqa
+            r = f"raised {type(e).__name__}"
+        if b.getvalue() != payload:
+            return {"reproduced": True, "target": f"{hint['file']}::{q}", "inputs": {"payload": payload.hex(), "cursor": pos},
+                    "expected": "stream content unchanged", "observed": "content modified"}
+        if pos == 0:
+            ref = r
+        elif r != ref:
+            return {"reproduced": True, "target": f"{hint['file']}::{q}", "inputs": {"payload": payload.hex(), "cursor": pos},
+                    "expected": f"same result as with the cursor at 0: {str(ref)[:60]!r}", "observed": f"{str(r)[:60]!r}"}
+        if b.tell() != pos:
+            return {"reproduced": True, "target": f"{hint['file']}::{q}", "inputs": {"payload": payload.hex(), "cursor": pos},
+                    "expected": f"cursor restored to {pos}", "observed": f"cursor at {b.tell()}"}
+    return None
+
+
+STRING_POOL = ["a.txt", "A.TXT", "a.pdf", "b.txt", "x/a.txt", "a", "", "1", "1.0", "image.png", "IMAGE.PNG", "image.jpeg"]
+
+
+def state_search(repo, hint):
+    """History independence of a function that keeps process-persistent state: f(b) in the state the module has after
+    import must equal f(b) after f(a), for a, b from a pool of near-colliding inputs of the parameter's type."""
+    import copy
+    q = hint.get("function", "")
+    if "." in q:
+        return None
+    try:
+        mod = _import(repo, hint["file"])
+        fn = getattr(mod, q)
+    except Exception:
+        return None
+    params = hint.get("params") or []
+    if len(params) != 1:
+        return None
+    ann = params[0][1]
+    pool = blob_pool() if "bytes" in ann else STRING_POOL if "str" in ann else blob_pool() + STRING_POOL
+    gname = hint.get("global")
+    g = getattr(mod, gname, None) if gname else None
+    snapshot = copy.copy(g) if isinstance(g, (dict, list, set)) else None
+
+    def reset():
+        if isinstance(g, dict):
+            g.clear(); g.update(snapshot)
+        elif isinstance(g, list):
+            g[:] = snapshot
+        elif isinstance(g, set):
+            g.clear(); g.update(snapshot)
+        if hasattr(fn, "cache_clear"):
+            fn.cache_clear()
+
+    def call(x):
+        try:
+            return repr(fn(x))
+        except Exception as e:  # noqa
+            return f"raised {type(e).__name__}"
+
+    fresh = {}
+    for i, b in enumerate(pool):
+        reset()
+        fresh[i] = call(b)
+    for i, a in enumerate(pool):
+        for j, b in enumerate(pool):
+            if i == j:
+                continue
+            reset()
+            call(a)
+            r = call(b)
+            if r != fresh[j]:
+                enc = (lambda x: x.hex() if isinstance(x, bytes) else x)
+                return {"reproduced": True, "target": f"{hint['file']}::{q}",
+                        "inputs": {"earlier_call": enc(a), "call": enc(b)},
+                        "expected": f"{fresh[j]} (result in a fresh process)", "observed": f"{r} after the earlier call in the same process"}
+    reset()
+    return None
+
+
+def _report(new, n, note=""):
+    f, kind, detail = new[0]
+    return {"reproduced": True, "target": f, "inputs": {"file": f, "PYTHONHASHSEED": [1, 2], "synthetic_generator": "replay/C06.py::synth_corpus" if f.startswith("synthetic/") else None},
+            "expected": "identical to_json() in fresh processes / repeated extraction / idempotent observers / unchanged input buffer",
+            "observed": f"{kind} {detail}", "all_new_mismatches": new[:10]}
 
 
 def find(req):
     repo = os.environ.get("VERIF_REPO", "/repo")
-    r = mismatches(repo)
+    hint = req.get("extra") or {}
+    if not hint and "::" in (req.get("function") or ""):
+        # obligation of a deductively verified function (contracts/C06.py::contracts): search at function level first
+        rel, q = req["function"].split("::", 1)
+        hint = {"kind": "stream", "file": rel, "function": q}
+    kind = hint.get("kind")
+    if kind == "stream":
+        r = stream_search(repo, hint)
+        if r:
+            return r
+    if kind == "state":
+        r = state_search(repo, hint)
+        if r:
+            return r
+    scope, seeds = "all", (1, 2)
+    if kind == "order":
+        # ties are ordered by the hash seed: three seeds on the synthetic name pools first
+        r = mismatches(repo, "synthetic", (1, 2, 3))
+        if r and r[0]:
+            return _report(r[0], r[1])
+    r = mismatches(repo, scope, seeds)
     if r is None:
         return {"reproduced": False, "note": "worker produced no output"}
     mm, n = r
@@ -99,11 +499,9 @@ def find(req):
     if req.get("list_all"):
         return {"reproduced": bool(mm), "mismatches": mm, "fixtures": n}
     if new:
-        f, kind, detail = new[0]
-        return {"reproduced": True, "target": f, "inputs": {"file": f, "PYTHONHASHSEED": [1, 2]}, "expected": "identical to_json() in fresh processes / idempotent observers / unchanged input buffer",
-                "observed": f"{kind} {detail}", "all_new_mismatches": new[:10]}
-    return {"reproduced": False, "note": f"{n} fixtures: no unrecorded mismatch ({len(mm)} recorded)", "recorded_still_failing": len(mm)}
+        return _report(new, n)
+    return {"reproduced": False, "note": f"{n} documents: no unrecorded mismatch ({len(mm)} recorded)", "recorded_still_failing": len(mm)}
 
 
 def rerun(stored):
-    return find({})
+    return find({"extra": (stored.get("solver") or {}).get("replay_hint")})
